@@ -50,13 +50,13 @@ ND      == NameSet \cup {"-"}
 
 TwoOps == {"pvar2", "pconst2", "define2", "lvar2", "lconst2"}   \* declarations of TWO names: `var n, k = 1, 2` ...
 GoOps == TwoOps \cup
-         {"pstruct", "pvar", "pconst", "ptype", "func", "method", "define", "lvar", "lconst", "ltype", "use",
+         {"pstruct", "pshadow", "tuse", "pvar", "pconst", "ptype", "func", "method", "define", "lvar", "lconst", "ltype", "use",
           "muse", "block", "if", "for", "switch", "range", "funclit", "close"}
 XOps  == {"pover", "xmain", "errwrap", "echo", "interp", "forin", "lambdab", "lambda", "compr"}
 
 Openers  == {"func", "method", "xmain", "block", "if", "for", "switch", "range", "forin", "funclit", "lambdab"}
 FuncLike == {"func", "method", "xmain", "funclit", "lambdab", "lambda"}   \* header scope = body scope
-PkgOps   == {"pvar", "pconst", "ptype", "pover", "func", "method", "xmain", "pvar2", "pconst2", "pstruct"}
+PkgOps   == {"pvar", "pconst", "ptype", "pover", "func", "method", "xmain", "pvar2", "pconst2", "pstruct", "pshadow"}
 
 It(op, n, u, p, r, q, k, v) ==
   [op |-> op, n |-> n, u |-> u, p |-> p, r |-> r, q |-> q, k |-> k, v |-> v, par |-> 0]
@@ -227,6 +227,10 @@ WellFormed(it, pk, mn, bn, seen, xm) ==
       \* shapes that would not be programs
       /\ (it.op = "range" => (it.k # "-" \/ it.v # "-"))
       /\ (it.op \in TwoOps => it.n # it.k)
+      \* `type byte uint16` (flag r) / `type rune = int64` (flag q): a package-level type named like a
+      \* predeclared one, at most once; `tuse` = `var z byte` / `var z rune` in a block (type position)
+      /\ (it.op = "pshadow" => (it.r = "y" \/ it.q = "y") /\ \A j \in 1..Len(items) : items[j].op # "pshadow")
+      /\ (it.op = "tuse" => (it.r = "y") # (it.q = "y"))
       /\ (stack = << >> => ~xm)                                    \* the shadow main comes last
       \* the shadow main begins at the first top-level STATEMENT: a leading var/const/type would
       \* still be a package-level declaration (parser.go: parseFile / ShadowEntry)
@@ -242,12 +246,14 @@ PkgCands == { it \in
   \cup { It(op, n, "-", "-", "-", "-", k, "-") : op \in {"pvar2", "pconst2"}, n \in NameSet, k \in NameSet }
   \cup { It("pstruct", n, "-", p, r, q, k, v) : n \in NameSet, p \in ND, r \in {"-", "y"}, q \in {"-", "y"},
                                                   k \in {"-", "y"}, v \in {"-", "y"} }
+  \cup { It("pshadow", "-", "-", "-", r, q, "-", "-") : r \in {"-", "y"}, q \in {"-", "y"} }
   \cup { It("xmain", "-", "-", "-", "-", "-", "-", "-") } : it.op \in Ops }
 BlockCands == { it \in
        { It(op, n, u, "-", "-", "-", "-", "-") : op \in {"define", "lvar", "errwrap"}, n \in NameSet, u \in ND }
   \cup { It(op, n, "-", "-", "-", "-", "-", "-") : op \in {"lconst", "ltype"}, n \in NameSet }
   \cup { It(op, "-", u, "-", "-", "-", "-", "-") : op \in {"use", "echo", "interp", "muse"}, u \in NameSet }
   \cup { It(op, n, "-", "-", "-", "-", k, "-") : op \in {"define2", "lvar2", "lconst2"}, n \in NameSet, k \in NameSet }
+  \cup { It("tuse", "-", "-", "-", r, q, "-", "-") : r \in {"-", "y"}, q \in {"-", "y"} }
   \cup { It("block", "-", "-", "-", "-", "-", "-", "-") }
   \cup { It("if", n, u, "-", "-", "-", "-", "-") : n \in ND, u \in ND }
   \cup { It("for", n, "-", "-", "-", "-", "-", "-") : n \in NameSet }
